@@ -103,6 +103,8 @@ class Check:
                 unknown.append((rec, text, ext))
         for fid, (f, n) in hit.items():
             print('KNOWN-FINDING: property=%s %s [%s, %d cases this run]' % (self.pid, f.get('what', ''), fid, n))
+        allc = collections.Counter(json.dumps({k: rec.get(k) for k in ('symptom', 'site', 'input_class')}, sort_keys=True) for rec, _, _ in unknown)
+        if allc: self.extra['unlisted_violation_classes'] = [{'class': json.loads(k), 'cases': n} for k, n in allc.most_common(60)]
         per_class = collections.Counter()
         nviol = 0
         for rec, text, ext in unknown:
